@@ -604,10 +604,12 @@ func (c *Ctx) opsxRun() []*opsVerdict {
 						continue
 					}
 					if t1 == "Integer" || t1 == "Long" {
-						// two's complement: 0 - x is -x
+						// two's complement: 0 - x is -x; int and int64 are one representation: a conversion between
+						// them around the operands or around the whole-number result changes nothing
 						for i := range values {
-							values[i].expr = strings.ReplaceAll(values[i].expr, "(0 - x)", "-x")
+							values[i].expr = normIntIdentity(strings.ReplaceAll(values[i].expr, "(0 - x)", "-x"))
 						}
+						want = normIntIdentity(want)
 					}
 					// a comparison cell may be computed in any logically equal way (b < a for a > b, less || equal,
 					// a relation object …): decided as a truth table over the possible orderings of x and c2
